@@ -33,13 +33,15 @@ func init() {
 			c.min("R-POISON", 4)
 			c.min("R-BUMP", 6)
 		})
-	register("C29", "resolved-callee tables for the hash and signature helpers (R-CALLEE)",
-		"Decides which primitive each helper resolves to through the type checker: Blake2b128 -> blake2b.New(16), Blake2bHash -> blake2b.New256, Keccak256 -> sha3.NewLegacyKeccak256 (not the NIST SHA3), Twox64/128/256 -> xxhash.NewS64 with seeds 0..n-1 written little-endian in seed order, Sha256 -> sha256.Sum256; sr25519 Verify decodes the signature with the strict schnorrkel decoder (marker bit required) and only VerifyDeprecated may use the lenient one; ed25519 verification resolves to crypto/ed25519.Verify, which is cofactorless and rejects non-canonical encodings that ZIP-215 accepts (recorded finding). "+
+	register("C29", "resolved-callee tables for the hash and signature helpers (R-CALLEE), exact normalisation of the secp256k1 recovery byte (R-RECID)",
+		"Decides which primitive each helper resolves to through the type checker: Blake2b128 -> blake2b.New(16), Blake2bHash -> blake2b.New256, Keccak256 -> sha3.NewLegacyKeccak256 (not the NIST SHA3), Twox64/128/256 -> xxhash.NewS64 with seeds 0..n-1 written little-endian in seed order, Sha256 -> sha256.Sum256; sr25519 Verify decodes the signature with the strict schnorrkel decoder (marker bit required) and only VerifyDeprecated may use the lenient one; ed25519 verification resolves to crypto/ed25519.Verify, which is cofactorless and rejects non-canonical encodings that ZIP-215 accepts (recorded finding); secp256k1 recovery rewrites only the recovery byte, by v >= 27 -> v - 27 exactly as the reference, before calling the library. "+
 			"Not decided: the digests and verdicts themselves (library correctness).",
 		"golang.org/x/crypto, xxhash, schnorrkel libraries trusted", "DESIGN.md §3 R-CALLEE; §4 C29",
 		func(c *Ctx) {
 			c.load("lib/common", "lib/crypto/sr25519", "lib/crypto/ed25519", "lib/crypto/secp256k1")
 			c.ruleCallee()
+			c.ruleRecoveryID()
+			c.min("R-RECID", 4)
 			c.min("R-CALLEE", 12)
 		})
 }
@@ -67,7 +69,7 @@ func (c *Ctx) ruleAllocator() {
 		}
 		c.ob("R-ALLOCCONST", "orderFromSize:rejects-above-max", f.Pos(), ok, "requests larger than MaxPossibleAllocations (32 MiB) must fail: `size > MaxPossibleAllocations` -> error")
 	}
-	c.doc("R-POISON", "Allocate/Deallocate: the poisoned test dominates every call; a deferred function sets poisoned when the named error result is non-nil")
+	c.doc("R-POISON", "Allocate/Deallocate: the poisoned test dominates every call; a deferred function sets poisoned when the named error result is non-nil, and every return hands back the content of exactly that result cell (an error returned directly cannot bypass the poisoning)")
 	for _, name := range []string{"(*FreeingBumpHeapAllocator).Allocate", "(*FreeingBumpHeapAllocator).Deallocate"} {
 		f := c.fn(allocDir, name)
 		if f == nil {
@@ -110,6 +112,29 @@ func (c *Ctx) ruleAllocator() {
 			}
 		})
 		c.ob("R-POISON", name+":poisons-on-error", f.Pos(), poison && isDeferred, "every error exit must poison the allocator (deferred `if err != nil { poisoned = true }`)")
+		// the error the deferred function inspects must be the function's own result: every return hands back the
+		// content of the captured cell (named result), never a value the closure cannot see
+		var cell ssa.Value
+		eachInstr(f, func(_ *ssa.BasicBlock, _ int, in ssa.Instruction) {
+			if mc, ok := in.(*ssa.MakeClosure); ok {
+				for _, b := range mc.Bindings {
+					if al, ok := b.(*ssa.Alloc); ok && al.Type().String() == "*error" {
+						cell = al
+					}
+				}
+			}
+		})
+		sees := cell != nil
+		nret := 0
+		for _, r := range returnsOf(f) {
+			nret++
+			ev := r.Results[len(r.Results)-1]
+			u, ok := ev.(*ssa.UnOp)
+			if !ok || u.Op != token.MUL || u.X != cell {
+				sees = false
+			}
+		}
+		c.ob("R-POISON", name+":deferred-check-sees-the-returned-error", f.Pos(), sees && nret > 0, "the deferred poisoning function tests a variable that is not the function's (named) error result: errors returned directly bypass it and a failed operation leaves the allocator usable")
 	}
 	c.doc("R-BUMP", "bump: required = uint64(*bumper)+uint64(size) (widened before adding, derived from both); compared with mem.Size(); pagesFromSize(required); requiredPages > MaxWasmPages -> error; grow target includes requiredPages; *bumper += size only after the checks")
 	f := c.fn(allocDir, "bump")
